@@ -59,10 +59,13 @@ func workerSearch(results []interface{}, ctrChanged chan<- struct{}, f func(int)
 		verifYield("ws.afterCtr", int(i))
 		if i >= 0 {
 			results[i] = res
+			// Exactly one notification per stored result, sent after the store:
+			// the caller counts them, so it neither returns before the result is
+			// visible nor leaves a worker blocked on a send nobody receives.
+			verifYield("ws.beforeSend", int(i))
+			ctrChanged <- struct{}{}
+			verifYield("ws.afterSend", int(i))
 		}
-		verifYield("ws.beforeSend", int(i))
-		ctrChanged <- struct{}{}
-		verifYield("ws.afterSend", int(i))
 	}
 }
 
@@ -151,16 +154,20 @@ func (p *Pool) Search(count int, f func() interface{}) []interface{} {
 		results:    results,
 	}
 	cmdI := 0
+	// received counts the notifications; there is exactly one per result.
+	received := 0
 	for cmdI < p.workerCount {
 		select {
 		case p.commands <- cmd:
 			cmdI++
 		case <-ctrChanged:
+			received++
 		}
 	}
-	for atomic.LoadInt64(&ctr) > 0 {
+	for received < count {
 		verifYield("c.beforeRecv", 0)
 		<-ctrChanged
+		received++
 		verifYield("c.afterRecv", 0)
 	}
 	verifYield("c.return", 0)
@@ -181,6 +188,7 @@ func (p *Pool) Parallelize(count int, f func(int) interface{}) []interface{} {
 	ctr := int64(count)
 	ctrChanged := make(chan struct{})
 	cmdI := 0
+	received := 0
 	for cmdI < count {
 		cmd := command{
 			search:     false,
@@ -197,11 +205,15 @@ func (p *Pool) Parallelize(count int, f func(int) interface{}) []interface{} {
 		case p.commands <- cmd:
 			cmdI++
 		case <-ctrChanged:
+			received++
 		}
 	}
-	for atomic.LoadInt64(&ctr) > 0 {
+	// every command sends exactly one notification: wait for all of them, so
+	// that no worker is left blocked on its send after we return.
+	for received < count {
 		verifYield("c.beforeRecv", 0)
 		<-ctrChanged
+		received++
 		verifYield("c.afterRecv", 0)
 	}
 	verifYield("c.return", 0)
